@@ -1030,6 +1030,10 @@ def mk_server_cfg(args: ArgsType) -> configparser.SectionProxy:
             value = args[opt]
             if test_cfg_val(opt, value):
                 cfg[opt] = arg2config(opt, opt_type, value)
+            elif value not in NULL_ARGS:
+                # The lower-ranking sources already yield this value; don't let
+                # a different one saved earlier keep overriding them.
+                USERCFG.remove_option(server, opt)
 
     return cfg
 
